@@ -31,17 +31,33 @@ def run(ctx):
     items, origin = [], []
     for s in WITNESSES:
         items.append(("1", [ord(c) for c in s])); origin.append("witness " + s)
-    for d in _json.gen_docs(ctx, N, maxdepth=3):
+    docs = _json.gen_docs(ctx, N, maxdepth=3)
+    # strings whose body contains an escape followed by an escaped quote and then text that looks like
+    # the rest of a document: a reader that ends the string early accepts a proper prefix
+    for hs in (0xD83D, 0xD800, 0xDBFF, 0xDC00, 0x0041):
+        for up in (False, True):
+            for tail in (",1,2]", "}", "]", ':1}', ',"x":[]}'):
+                body = [("u", hs, up), ("esc", '"')] + [("raw", ord(ch)) for ch in tail]
+                docs.append(("arr", [("str", body), ("num", "7")]))
+                docs.append(("obj", [(body, ("arr", [("null",)]))]))
+    n_regular = len(docs) - 5 * 2 * 5 * 2
+    for di, d in enumerate(docs):
         w = rng.choice(_json.WIDTHS)
         u = jsongen.render(d, rng, _json.WNUM[w])
-        # D itself must be accepted (sanity of the generator), checked below through 'accept'
-        items.append((w, u)); origin.append("accept")
+        # D itself must be accepted (sanity of the generator), checked below through 'accept'; the constructed
+        # documents with a lone surrogate escape are not well-formed Unicode: the reader may reject them
+        items.append((w, u)); origin.append("accept" if di < n_regular else "accept-optional")
         for k in range(len(u)):
             items.append((w, u[:k])); origin.append("prefix")
         for sfx in (_json.SUFFIXES if ctx.thorough else rng.sample(_json.SUFFIXES, 8)) + _json.CONTROL_SUFFIXES:
             items.append((w, u + [sfx])); origin.append("suffix")
             items.append((w, u + [32, sfx])); origin.append("suffix")
-        closers = [i for i, x in enumerate(u) if x in (93, 125)]
+            # leading whitespace must not buy tolerance for trailing garbage
+            lead = [rng.choice([32, 10, 9, 13]) for _ in range(rng.randrange(1, 6))]
+            items.append((w, lead + u + [sfx])); origin.append("suffix")
+            items.append((w, lead + u + [sfx] * rng.randrange(1, len(lead) + 1))); origin.append("suffix")
+        # (the constructed lone-surrogate documents have no agreed reading once a bracket inside the string moves)
+        closers = [i for i, x in enumerate(u) if x in (93, 125)] if di < n_regular else []
         for i in closers if ctx.thorough else closers[-6:]:
             # only brackets outside strings: rendering puts every ] } of a string body inside quotes; filter by re-checking acceptance
             v = list(u); v[i] = 93 if u[i] == 125 else 125
@@ -52,6 +68,8 @@ def run(ctx):
     import json as pyjson
     for l, a, o, (w, u) in zip(lines, impl, origin, items):
         if a.startswith("FAULT"):
+            continue
+        if o == "accept-optional":
             continue
         if o == "accept":
             if a == "U":
